@@ -62,7 +62,7 @@ def ntt_out_bound(B0):
 
 def loop_anchor(f, var, elem_ty='usize', iter_kind='core::ops::Range<usize>'):
     """body entry / loop head blocks of `for <var> in ...` identified by the debug name of the loop variable"""
-    jl = f.debug_of.get(var)
+    jl = f.debug_of.get(var) or (var if re.match(r'^_\d+$', var) else None)
     if not jl:
         raise e2.Refuse(f'{f.name}: no local with debug name {var}')
     rx = re.compile(r'^' + re.escape(jl) + r' = copy \(\((_\d+) as Some\)\.0: ' + re.escape(elem_ty) + r'\)$')
@@ -74,6 +74,43 @@ def loop_anchor(f, var, elem_ty='usize', iter_kind='core::ops::Range<usize>'):
     if len(head) != 1:
         raise e2.Refuse(f'{f.name}: loop head for `{var}` not unique ({head})')
     return bb, head[0], opt
+
+
+def user_vars(f, ty_rx, init_rx=None):
+    """user variables (plain locals with a debug name) of a type, optionally with an initialising statement; ordered by local number"""
+    out = []
+    for place, name in f.debug.items():
+        if not re.match(r'^_\d+$', place) or not re.match(ty_rx, f.locals.get(place, '')):
+            continue
+        if init_rx and not any(re.match(r'^' + re.escape(place) + r' = ' + init_rx + r'$', l) for ls in f.blocks.values() for l in ls):
+            continue
+        out.append(place)
+    return sorted(out, key=lambda x: int(x[1:]))
+
+
+def ntt_vars(f):
+    """locals of ntt / inv_ntt by role: pinned source names first, structural fall-back (type + initialiser) when they were renamed"""
+    fwd = f.name == 'ntt'
+    d = {k: f.debug_of.get(k) for k in ('m', 'len', 'start', 'zeta', 'w_poly', 'j')}
+    def one(c):
+        return c[0] if len(c) == 1 else None
+    if not d['len']:
+        d['len'] = one(user_vars(f, r'^usize$', r'const 128_usize' if fwd else r'const 1_usize'))
+    if not d['m']:
+        c = user_vars(f, r'^usize$', r'const 0_usize' if fwd else r'const 256_usize')
+        d['m'] = c[0] if c else None                      # declared before `start` (which is also initialised with 0 in the forward transform)
+    if not d['start']:
+        c = [x for x in user_vars(f, r'^usize$', r'const 0_usize') if x != d['m']]
+        d['start'] = one(c)
+    if not d['zeta']:
+        d['zeta'] = one(user_vars(f, r'^i64$' if fwd else r'^i32$', None)) if fwd else one([x for x in user_vars(f, r'^i32$') if any(re.match(r'^' + re.escape(x) + r' = Neg\(', l) for ls in f.blocks.values() for l in ls)])
+    if not d['w_poly']:
+        d['w_poly'] = one(user_vars(f, r'^&mut (types::)?[RT]$'))
+    if not d['j']:
+        rx = re.compile(r'^(_\d+) = copy \(\((_\d+) as Some\)\.0: usize\)$')
+        c = sorted({m.group(1) for ls in f.blocks.values() for l in ls for m in [rx.match(l)] if m and m.group(1) in f.debug}, key=lambda x: int(x[1:]))
+        d['j'] = one(c)
+    return d
 
 
 def defs_of(f, local):
